@@ -144,8 +144,9 @@ class HammingIMQKernel(Kernel):
         if diag:
             if x1_eq_x2:
                 res = ((1 + self.alpha) / self.alpha).pow(self.beta)
-                skip_dims = [-1] * len(self.batch_shape)
-                return res.expand(*skip_dims, x1.size(-3))
+                # the diagonal has the batch shape of the inputs broadcast with that of the hyperparameters
+                batch_shape = torch.broadcast_shapes(self.batch_shape, x1.shape[:-3])
+                return res.expand(*batch_shape, x1.size(-3))
             else:
                 dist = x1.size(-2) - (x1 * x2).sum(dim=(-1, -2))
                 return self._imq(dist, diag=True)
